@@ -98,6 +98,9 @@ namespace
         std::int64_t                                        chain_runs{0};  // line 11: chained companion runs
         bool                                                chain_sparse{false};
         std::int64_t                                        wiring_sources{0}, wiring_builds{0}, wiring_seed{0};  // line 12
+        std::vector<std::int64_t>                           ctx_chain_erase;   // line 14: keys the middle run of the context chain erases
+        bool                                                ctx_chain{false};
+        std::int64_t                                        alarm_polls{0}, alarm_interval{0}, alarm_burn{0};  // line 15
         std::int64_t                                        context_variant{-1};  // line 13: -1 none, 0 B without context, 1 B own context
     };
 
@@ -608,7 +611,7 @@ namespace
 #endif
 
     // the companion graph; `sparse` selects the recorder's (time, delta) layout instead of the cycle-aligned one
-    GraphBuilder make_comp_graph(const Prog *p, bool sparse)
+    GraphBuilder make_comp_graph(const Prog *p, bool sparse, bool continuation = false)
     {
         const Types ty = types();
 #ifndef HGV_REPRO_NO_RECORD
@@ -622,9 +625,11 @@ namespace
         w.add_unique_node(std::type_index(typeid(CompSinkTag)), comp_sink(p, ty), std::span<const WiringPortRef>{sin}, Value{});
         if (sparse) { wire<stdlib::dense_record_impl>(w, Port<TS<Int>>{w, WiringPortRef{nested}}, Str{"rec"}, Bool{true}); }
         else { wire<stdlib::dense_record_impl>(w, Port<TS<Int>>{w, WiringPortRef{nested}}, Str{"rec"}); }
+        // the persistent :memory: recorder, documented to APPEND across runs that continue on the same GlobalState
+        if (continuation) { wire<stdlib::sparse_record_impl>(w, Port<TS<Int>>{w, WiringPortRef{nested}}, Str{"cont"}); }
         GraphBuilder gb = std::move(w).finish();
 #else
-        static_cast<void>(sparse);
+        static_cast<void>(sparse); static_cast<void>(continuation);
         GraphBuilder gb;
         gb.add_node(comp_source(p, ty)).add_node(comp_nested(p, ty)).add_node(comp_sink(p, ty));
         gb.add_edge(GraphEdge{.source_node = 0, .source_path = {}, .target_node = 1, .target_path = {0}});
@@ -691,6 +696,33 @@ namespace
         auto gs = ev.graph().global_state();
         print_recording(gs, false, r.out);
         dump_global_state(gs, r.out);
+    }
+
+    // the continuation recording (":memory:<recordable id>.cont", appended across chained runs): 35 cycle value; 36 entries
+    void print_continuation(GlobalStateView gs, hgv::Out &out)
+    {
+#ifndef HGV_REPRO_NO_RECORD
+        try
+        {
+            std::string full;
+            for (const auto &k : gs.as_value().view().as_map().keys())
+            {
+                const std::string &name = k.template checked_as<std::string>();
+                if (name.rfind(":memory:", 0) == 0 && name.size() >= 5 && name.compare(name.size() - 5, 5, ".cont") == 0) { full = name; }
+            }
+            if (full.empty()) { out.line({36, 0}); return; }
+            const auto rec = testing::get_recorded_sparse(gs, full);
+            for (const auto &[cycle, delta] : rec) { out.line({35, (std::int64_t)cycle, (std::int64_t)delta.view().checked_as<Int>()}); }
+            out.line({36, (std::int64_t)rec.size()});
+        }
+        catch (const std::exception &e)
+        {
+            out.line({19, 4});
+            std::fprintf(stderr, "continuation read-back error: %s\n", e.what());
+        }
+#else
+        static_cast<void>(gs); static_cast<void>(out);
+#endif
     }
 
     // ------------------------------------------------------------------ parametrised schemas (lines 10 <spec>)
@@ -920,6 +952,76 @@ namespace
     }
 #endif
 
+    // ------------------------------------------------------------------ wall-clock alarm requested in SIMULATION (line 15)
+    // the classic interval-polling idiom of a STATIC node (injected NodeScheduler): schedule(interval, "poll", on_wall_clock)
+    // in start and after every evaluation.  The simulation executor cannot advance from host time: whatever it does with
+    // such a graph (the reference tree rejects it at start) must be the same at every host speed.
+#ifndef HGV_REPRO_NO_RECORD
+    thread_local std::int64_t tl_alarm_interval = 50, tl_alarm_polls = 3, tl_alarm_burn = 0;
+
+    struct AlarmPoller
+    {
+        static constexpr auto name = "hgv_alarm_poller";
+        static void start(NodeScheduler sched) { sched.schedule(TimeDelta{tl_alarm_interval}, "poll", /*on_wall_clock=*/true); }
+        static void eval(NodeScheduler sched, State<Int> polls, Out<TS<Int>> out)
+        {
+            if (tl_alarm_burn > 0)
+            {
+                const auto until = std::chrono::steady_clock::now() + std::chrono::microseconds{tl_alarm_burn};
+                while (std::chrono::steady_clock::now() < until) {}
+            }
+            const Int n = polls.get() + 1;
+            polls.set(n);
+            out.set(n);
+            if (n < tl_alarm_polls) { sched.schedule(TimeDelta{tl_alarm_interval}, "poll", /*on_wall_clock=*/true); }
+        }
+    };
+
+    struct AlarmSink
+    {
+        static constexpr auto name = "hgv_alarm_sink";
+        static void eval(In<"ts", TS<Int>> ts, DateTime now)
+        {
+            if (tl_run != nullptr) { tl_run->out.line({53, us(now) - us(MIN_ST), (std::int64_t)ts.value()}); }
+        }
+    };
+
+    GraphExecutorBuilder make_alarm_builder(const Prog *p)
+    {
+        tl_alarm_interval = p->alarm_interval;
+        tl_alarm_polls    = p->alarm_polls;
+        Wiring w;
+        auto   polled = wire<AlarmPoller>(w);
+        wire<AlarmSink>(w, polled);
+        GraphExecutorBuilder eb;
+        eb.graph_builder(std::move(w).finish()).mode(GraphExecutorMode::Simulation).start_time(MIN_ST)
+            .end_time(MIN_ST + TimeDelta{p->alarm_interval * (p->alarm_polls + 2) + 20000});
+        return eb;
+    }
+#endif
+
+    // a one-node graph whose node erases the given keys from the run's GlobalState (22 0 t key removed)
+    GraphBuilder make_eraser_graph(const std::vector<std::int64_t> *keys)
+    {
+        NodeTypeMetaData schema;
+        schema.display_name      = "hgv_eraser";
+        schema.node_kind         = NodeKind::PullSource;
+        schema.schedule_on_start = true;
+        schema.output_schema     = types().ts_int;
+        NodeCallbacks cb;
+        cb.evaluate = [keys](const NodeView &v, DateTime t) {
+            auto gs = v.graph().global_state();
+            for (const std::int64_t k : *keys)
+            {
+                const bool removed = gs.erase(key_name(k));
+                if (tl_run != nullptr) { tl_run->out.line({22, 0, us(t), k, removed}); }
+            }
+        };
+        GraphBuilder gb;
+        gb.add_node(NodeBuilder::native(std::move(schema), std::move(cb)));
+        return gb;
+    }
+
     // deterministic heap perturbation between builds: stands in for whatever else the process allocated earlier
     void perturb_heap(std::uint64_t &state, std::vector<void *> &kept)
     {
@@ -982,6 +1084,8 @@ namespace
                 case 11: if (l.size() >= 3) { cur->chain_runs = l[1]; cur->chain_sparse = l[2] != 0; } break;
                 case 12: if (l.size() >= 4) { cur->wiring_sources = l[1]; cur->wiring_builds = l[2]; cur->wiring_seed = l[3]; } break;
                 case 13: if (l.size() >= 2) { cur->context_variant = l[1]; } break;
+                case 14: cur->ctx_chain = true; cur->ctx_chain_erase.assign(l.begin() + 1, l.end()); break;
+                case 15: if (l.size() >= 4) { cur->alarm_polls = l[1]; cur->alarm_interval = l[2]; cur->alarm_burn = l[3]; } break;
                 case 9:
                     if (l.size() >= 6) { cd.R = l[1]; cd.F = l[2]; cd.T = l[3]; cd.sleep_seed = l[4]; cd.flags = l[5]; }
                     break;
@@ -1214,7 +1318,7 @@ namespace
                 std::optional<GraphExecutorValue>   prev;
                 for (std::int64_t k = 0; k < mainp->chain_runs; ++k)
                 {
-                    GraphBuilder gb = make_comp_graph(mainp, mainp->chain_sparse);
+                    GraphBuilder gb = make_comp_graph(mainp, mainp->chain_sparse, true);
                     if (prev) { gb.global_state().copy_from(prev->view().graph().global_state()); }
                     else
                     {
@@ -1236,6 +1340,7 @@ namespace
                     }
                     tl_run = nullptr;
                     print_recording(ex->view().graph().global_state(), mainp->chain_sparse, r.out);
+                    print_continuation(ex->view().graph().global_state(), r.out);
                     out.line({44, k, (std::int64_t)mainp->chain_sparse});
                     out.buf += r.out.buf;
                     prev.reset();            // executor before its builder
@@ -1350,6 +1455,86 @@ namespace
                 out.line({47, 1});
                 out.buf += sb_after.buf;
             }
+
+            // ---- chain of runs inside ONE GlobalContext (headers 48 j kind): the user's SELECTED state seeds every build
+            // made while the context is alive and receives, at the end of every run, the run's final GlobalState
+            // (copy_from - "Replace this store with a copy of other": the harness / lower() copy-back).  Run 0 and run 2 are
+            // the main program, run 1 a graph that ERASES keys.  After each run the selected state (47 j + 24 / 25 lines) must
+            // be exactly that run's final state.
+            if (mainp->ctx_chain)
+            {
+                GlobalState selected;
+                selected.view().set(key_name(700), Value{std::int64_t{7}});
+                selected.view().set(key_name(701), Value{std::int64_t{70}});
+                GlobalContext ctx{selected};
+                for (std::int64_t j = 0; j < 3; ++j)
+                {
+                    RunCtx r = fresh_ctx(mainp, (std::uint64_t)cd.sleep_seed, ++ordinal);
+                    out.line({48, j, j == 1 ? 1 : 0});
+                    try
+                    {
+                        if (j == 1)
+                        {
+                            GraphExecutorBuilder eb;
+                            eb.graph_builder(make_eraser_graph(&mainp->ctx_chain_erase)).start_time(dt(mainp->start)).end_time(dt(mainp->start + 2));
+                            GraphExecutorValue ex = eb.make_executor();
+                            tl_run = &r;
+                            try { ex.view().run(); } catch (const std::exception &) { r.out.line({19, 1}); }
+                            tl_run = nullptr;
+                            dump_global_state(ex.view().graph().global_state(), r.out);
+                            selected.view().copy_from(ex.view().graph().global_state());
+                        }
+                        else
+                        {
+                            GraphExecutorBuilder eb = make_builder(mainp);
+                            GraphExecutorValue   ex = eb.make_executor();
+                            run_executor(mainp, ex, r);
+                            selected.view().copy_from(ex.view().graph().global_state());
+                        }
+                    }
+                    catch (const std::exception &e)
+                    {
+                        r.out.line({18, 4});
+                        std::fprintf(stderr, "context chain error: %s\n", e.what());
+                    }
+                    out.buf += r.out.buf;
+                    out.line({47, j});
+                    dump_global_state(selected.view(), out);
+                }
+            }
+
+            // ---- wall-clock alarm in simulation (headers 49 r burn): one builder, three runs at different host speeds
+#ifndef HGV_REPRO_NO_RECORD
+            if (mainp->alarm_polls > 0)
+            {
+                try
+                {
+                    GraphExecutorBuilder eb = make_alarm_builder(mainp);
+                    const std::int64_t   burns[3] = {0, mainp->alarm_burn, 0};
+                    for (std::int64_t rr = 0; rr < 3; ++rr)
+                    {
+                        RunCtx r = fresh_ctx(mainp, 0, ++ordinal);
+                        tl_alarm_burn = burns[rr];
+                        out.line({49, rr, burns[rr]});
+                        tl_run = &r;
+                        try
+                        {
+                            GraphExecutorValue ex = eb.make_executor();
+                            ex.view().run();
+                            r.out.line({54, 0});  // ran to the end
+                        }
+                        catch (const std::exception &) { r.out.line({54, 1}); }  // rejected
+                        tl_run = nullptr;
+                        out.buf += r.out.buf;
+                    }
+                }
+                catch (const std::exception &e)
+                {
+                    out.line({18, 5});
+                    std::fprintf(stderr, "alarm program error: %s\n", e.what());
+                }
+            }
+#endif
             // all executors are destroyed here, on the main thread, after every run finished
         }
         catch (const std::exception &e)
